@@ -2,6 +2,7 @@ package node
 
 import (
 	"bytes"
+	"net/url"
 	"strings"
 
 	"github.com/freeconf/yang/meta"
@@ -55,7 +56,9 @@ func (seg *Path) toBuffer(b *bytes.Buffer) {
 				b.WriteRune(',')
 			}
 			if k != nil {
-				b.WriteString(k.String())
+				// same escaping that parsing a path undoes, otherwise keys holding
+				// any of / , = % or spaces render a path to somewhere else
+				b.WriteString(url.QueryEscape(k.String()))
 			} else {
 				b.WriteString("<nil>")
 			}
